@@ -7,6 +7,7 @@ use crate::json::J;
 use crate::oracle::ansi::clean_ansi;
 use crate::oracle::place::LineIn;
 use crate::rng::{fnv, mix, Rng};
+use crate::run::{RunCfg, Worker};
 use std::borrow::Cow;
 
 pub fn h(parts: &[u64]) -> u64 {
@@ -171,4 +172,120 @@ pub fn small_option_grid() -> Vec<OptSpec> {
         }
     }
     v
+}
+
+/// Realistic corpus: paragraphs of /repo's README, CHANGELOG and the doc
+/// comments / code of its sources (read at run time from the tree under test;
+/// an unreadable file simply contributes nothing).
+pub fn corpus_paragraphs() -> Vec<String> {
+    let mut out = Vec::new();
+    let mut files: Vec<String> = vec!["/repo/README.md".into(), "/repo/CHANGELOG.md".into()];
+    if let Ok(rd) = std::fs::read_dir("/repo/src") {
+        let mut v: Vec<String> = rd.filter_map(|e| e.ok()).map(|e| e.path().to_string_lossy().to_string()).filter(|p| p.ends_with(".rs")).collect();
+        v.sort();
+        files.extend(v);
+    }
+    for f in files {
+        let text = match std::fs::read_to_string(&f) {
+            Ok(t) => t,
+            Err(_) => continue,
+        };
+        let is_rs = f.ends_with(".rs");
+        let mut cur = String::new();
+        for line in text.lines() {
+            let l = if is_rs {
+                let t = line.trim_start();
+                if let Some(rest) = t.strip_prefix("///") {
+                    rest.trim_start().to_string()
+                } else if let Some(rest) = t.strip_prefix("//!") {
+                    rest.trim_start().to_string()
+                } else if let Some(rest) = t.strip_prefix("//") {
+                    rest.trim_start().to_string()
+                } else {
+                    // code: keep as a paragraph of its own (indented code for dedent / wrap)
+                    if !cur.is_empty() {
+                        out.push(std::mem::take(&mut cur));
+                    }
+                    if !t.is_empty() && out.len() % 7 == 0 {
+                        out.push(line.to_string());
+                    }
+                    continue;
+                }
+            } else {
+                line.to_string()
+            };
+            if l.trim().is_empty() {
+                if !cur.is_empty() {
+                    out.push(std::mem::take(&mut cur));
+                }
+            } else {
+                if !cur.is_empty() {
+                    cur.push(' ');
+                }
+                cur.push_str(l.trim_end());
+            }
+        }
+        if !cur.is_empty() {
+            out.push(cur);
+        }
+    }
+    out.retain(|p| p.len() <= 1200);
+    out
+}
+
+/// Corpus sub-run: every corpus paragraph (sharded over workers) x a width
+/// ladder (every width 1..=100 in the thorough tier) x 4 variants; `f` builds
+/// the case for (paragraph index, paragraphs, width, variant).
+pub fn corpus_subrun(cfg: &RunCfg, w: &mut Worker, mut f: impl FnMut(usize, &[String], usize, usize) -> Option<Case>) {
+    let paras = corpus_paragraphs();
+    if paras.is_empty() {
+        return;
+    }
+    let widths: Vec<usize> = if cfg.thorough { (1..=100).collect() } else { vec![1, 2, 3, 5, 8, 10, 13, 17, 20, 25, 30, 40, 50, 60, 72, 80, 100] };
+    let threads = cfg.threads.max(1);
+    let mut n = 0u64;
+    'outer: for i in 0..paras.len() {
+        if i % threads != w.id {
+            continue;
+        }
+        for &wd in &widths {
+            for variant in 0..4 {
+                if w.stopped() {
+                    break 'outer;
+                }
+                if let Some(c) = f(i, &paras, wd, variant) {
+                    w.run_case(&c);
+                    n += 1;
+                }
+            }
+        }
+    }
+    *w.stats.counters.entry("corpus_cases".to_string()).or_insert(0) += n;
+    if w.id == 0 {
+        w.note_subrun(
+            "corpus",
+            &format!(
+                "{} paragraphs from /repo/README.md, CHANGELOG.md and the doc comments / code lines of /repo/src/*.rs x {} widths x 4 option variants (sharded; this worker ran {})",
+                paras.len(),
+                widths.len(),
+                n
+            ),
+            n * threads as u64,
+        );
+    }
+}
+
+/// Option variant `v` of the small grid at `width` (for corpus sub-runs).
+pub fn grid_variant(v: usize, salt: usize, width: usize, first_fit_only: bool) -> Option<OptSpec> {
+    let grid: Vec<OptSpec> = small_option_grid().into_iter().filter(|o| !first_fit_only || o.algo == crate::case::Algo::FirstFit).collect();
+    if grid.is_empty() {
+        return None;
+    }
+    let mut o = grid[(v * 5 + salt) % grid.len()].clone();
+    o.width = width;
+    if (v + salt) % 3 == 1 {
+        o.ii = "- ".to_string();
+        o.si = "  ".to_string();
+    }
+    Some(o)
 }
